@@ -118,7 +118,14 @@ pub fn run_tree_with(tree: &Arc<Tree>, threads: u32, chooser: Box<dyn FnMut(&Vie
                     Kind::NoSol => NodeResult::NoSolution,
                     Kind::Feasible(s) => NodeResult::Feasible(n.1, *s),
                     Kind::Infeasible(kids, s) => NodeResult::Infeasible(kids.iter().map(|k| N(n.0 + 1, *k)).collect(), *s),
-                    Kind::Panic => panic!("node solver failed"),
+                    Kind::Panic => {
+                        // a literal payload (&str) for even node ids, a formatted one (String) for odd ones
+                        if n.1 % 2 == 0 {
+                            panic!("node solver failed")
+                        } else {
+                            panic!("node solver failed at node {}", n.1)
+                        }
+                    }
                 }
             },
             N(0, 0),
@@ -185,7 +192,14 @@ pub fn run_tree(tree: &Arc<Tree>, threads: u32, s: &Sched, max_steps: usize) -> 
                     Kind::Infeasible(kids, s) => {
                         NodeResult::Infeasible(kids.iter().map(|k| N(n.0 + 1, *k)).collect(), *s)
                     }
-                    Kind::Panic => panic!("node solver failed"),
+                    Kind::Panic => {
+                        // a literal payload (&str) for even node ids, a formatted one (String) for odd ones
+                        if n.1 % 2 == 0 {
+                            panic!("node solver failed")
+                        } else {
+                            panic!("node solver failed at node {}", n.1)
+                        }
+                    }
                 }
             },
             N(0, 0),
